@@ -1299,7 +1299,7 @@ TIERS = {
     "quick": {"whole": 2, "whole_more": 2, "parse": 2, "parse_more": 2, "step_min": 5, "step_max": 6, "skel_k": 2, "lines": 5,
               "budget_s": 170, "cap_s": 900, "second_every": 200},
     "thorough": {"whole": 2, "whole_more": 3, "parse": 2, "parse_more": 3, "step_min": 6, "step_max": 8, "skel_k": 3, "lines": 7,
-                 "budget_s": 1400, "cap_s": 2700, "second_every": 1000},
+                 "budget_s": 1500, "cap_s": 2700, "second_every": 1000},
 }
 
 
@@ -1375,19 +1375,22 @@ def run2(pid, tier, t0, par, lay, nat):
     last_dt, _ = explore(step_bodies(range(1, cfg["step_min"] + 1)), 9, "step L<=%d" % cfg["step_min"])
     reached["step"] = cfg["step_min"]
     last_dt *= 0.72          # share of the longest length in a geometric series of ratio ~3.5
-    # 3. one more byte for the brute-force families (a byte in token-start position multiplies the paths by ~36)
-    for fam, dt0, mk in (("whole", dt_w, lambda L: whole_body(par, lay, pid, "whole", "whole/L=%d" % L, [None] * L)), ("parse", dt_p, lambda L: parse_body(par, lay, pid, L))):
-        for L in range(cfg[fam] + 1, cfg[fam + "_more"] + 1):
-            if not fits(dt0 * 38.0, "%s L=%d" % (fam, L)):
-                break
-            dt0, _ = explore({"%s/L=%d" % (fam, L): mk(L)}, 11, "%s L=%d" % (fam, L))
-            reached[fam] = L
-    # 4. grow the step family while the budget permits
-    for L in range(cfg["step_min"] + 1, cfg["step_max"] + 1):
-        if not fits(last_dt * 3.6, "step L=%d" % L):
-            break
-        last_dt, _ = explore(step_bodies([L]), 9, "step L=%d" % L)
-        reached["step"] = L
+    # 3. grow the bounds in a fixed order of priority while the time budget permits: one more byte for the step family, one more
+    #    byte for the brute-force families (a byte in token-start position multiplies their paths by ~36), then the step family again
+    mk = {"whole": lambda L: whole_body(par, lay, pid, "whole", "whole/L=%d" % L, [None] * L), "parse": lambda L: parse_body(par, lay, pid, L)}
+    dt_last = {"whole": dt_w, "parse": dt_p, "step": last_dt}
+    plan = [("step", cfg["step_min"] + 1)] + [(f, L) for f in ("whole", "parse") for L in range(cfg[f] + 1, cfg[f + "_more"] + 1)] + \
+           [("step", L) for L in range(cfg["step_min"] + 2, cfg["step_max"] + 1)]
+    for fam, L in plan:
+        if fam == "step" and L > cfg["step_max"]:
+            continue
+        if L != reached[fam] + 1:
+            continue                      # a shorter length of this family was skipped
+        if not fits(dt_last[fam] * (3.6 if fam == "step" else 38.0), "%s L=%d" % (fam, L)):
+            continue
+        bodies = step_bodies([L]) if fam == "step" else {"%s/L=%d" % (fam, L): mk[fam](L)}
+        dt_last[fam], _ = explore(bodies, 9 if fam == "step" else 11, "%s L=%d" % (fam, L))
+        reached[fam] = L
     return finish(pid, tier, t0, cfg, reached, results, nat, nval, n_lex_texts, n_line_texts)
 
 
